@@ -494,6 +494,22 @@ def r_wrapbit(P, chk):
         if not ok:
             chk.violation(rid, "wrapbit:%s:%s" % (f.unit.base, f.name), f.where(refs[0]),
                           "%s reads %s outside the wrapper layer: the body rendering can now depend on -f / -s" % (f.name, refs[0]["n"]))
+        if f.unit.base == "main.c":
+            # the command line only *sets* the bits (`extensions |= EXT_SNIPPET`); a test of them there would make what is fed
+            # to the library (transclusion, mmd header / footer text) depend on -f / -s
+            for r in refs:
+                setter = False
+                for a in f.ancestors(r):
+                    if a["k"] == "CompoundAssignOperator" and a["op"] in ("|=", "&=") or (a["k"] == "BinaryOperator" and a["op"] == "="):
+                        setter = any(y is r for y in walk(a["c"][1]))
+                        break
+                    if a["k"] in ("IfStmt", "WhileStmt", "ForStmt", "ConditionalOperator", "CallExpr", "ReturnStmt"):
+                        break
+                chk.obligation(rid, "main.c:%s line %d: %s is only stored into the extensions word" % (f.name, r["l"], r["n"]), setter)
+                if not setter:
+                    chk.violation(rid, "wrapbit:main.c:%s:test" % f.name, f.where(r),
+                                  "%s tests %s: the text handed to the library (transclusion, MMD header / footer) now depends on "
+                                  "-f / -s, so the body of a snippet differs from the body of the complete document" % (f.name, r["n"]))
     chk.floor(rid, n, 6, "references to the complete/snippet bits")
     chk.analysed[rid] = {"references": n, "wrapper_layer": sorted(WRAP_LAYER)}
 
@@ -596,3 +612,61 @@ def r_metawindow(P, chk):
             chk.violation(rid, "metawindow:%s" % f.name, f.where(s), "a line is classified LINE_EMPTY here without clearing e->allow_meta: the "
                           "metadata block does not end at this blank line")
     chk.floor(rid, n, 2, "LINE_EMPTY classifications in the first-token dispatch")
+
+
+# ---------------------------------------------------------------------------
+# R-METASCAN (C11): a line is recognised as metadata, and its key cut out, from the start of the line itself
+
+def r_metascan(P, chk):
+    """mmd_assign_line_type decides `LINE_META` with scan_meta_line, strip_line_tokens_from_metadata cuts the key with
+    scan_meta_key and tests continuation lines with scan_meta_line.  All of them must look at the same place: the first byte
+    of the line token (or of the document).  A scan anchored at a child of the line (after the indentation token) accepts an
+    indented `word: text` continuation as a new key while the key extraction, anchored at the line, finds none."""
+    from .lalr import Tables, rhs_constants
+    rid = "R-METASCAN"
+    chk.rule(rid, "every scan_meta_line / scan_meta_key call looks at the first byte of a line token (a token whose ->type is "
+                  "dispatched on / assigned parser line kinds) or of the document, never at a child of the line")
+    T = Tables(P)
+    n = 0
+    for f in P.all_funcs:
+        if not P.first_party(f) or f.unit.base in ("scanners.c",):
+            continue
+        calls = [c for c in f.calls() if c.get("callee") in ("scan_meta_line", "scan_meta_key")]
+        if not calls:
+            continue
+        linevars = set()
+        for x in f.walk():
+            if x["k"] == "SwitchStmt" and key(x["c"][0]).endswith("->type"):
+                labs = []
+                for y in walk(x["c"][1]):
+                    if y["k"] == "CaseStmt":
+                        own = next((a for a in f.ancestors(y) if a["k"] == "SwitchStmt"), None)
+                        if own is x:
+                            labs.append(y.get("v"))
+                if any(v is not None and 0 < v < T.nterminal and T.name(v).startswith("LINE_") for v in labs):
+                    linevars.add(key(x["c"][0])[:-len("->type")])
+            elif x["k"] == "BinaryOperator" and x["op"] == "=" and key(x["c"][0]).endswith("->type"):
+                if any(0 < v < T.nterminal and T.name(v).startswith("LINE_") for v in rhs_constants(x["c"][1])):
+                    linevars.add(key(x["c"][0])[:-len("->type")])
+        for c in calls:
+            n += 1
+            a = strip(c["c"][1])
+            anchor = None
+            if a is not None and a["k"] == "UnaryOperator" and a["op"] == "&":
+                sub = strip(a["c"][0])
+                if sub is not None and sub["k"] == "ArraySubscriptExpr":
+                    ik = resolve_key(f, sub["c"][1]).replace("(", "").replace(")", "")
+                    if const_value(sub["c"][1]) == 0:
+                        anchor = "document start"
+                    elif ik.endswith("->start") and ik[:-len("->start")] in linevars:
+                        anchor = "start of line token `%s`" % ik[:-len("->start")]
+                    else:
+                        anchor = None
+            ok = anchor is not None
+            chk.obligation(rid, "%s %s: %s(%s) looks at the %s" % (f.where(c), f.name, c["callee"], key(c["c"][1])[:40], anchor or "?"), ok)
+            if not ok:
+                chk.violation(rid, "metascan:%s:%s" % (f.name, c["callee"]), f.where(c),
+                              "%s calls %s on `%s`, which is not the first byte of a line token (line tokens here: %s): metadata "
+                              "recognition and key extraction no longer look at the same place, so an indented continuation line "
+                              "is taken for a key (or a key for a continuation)" % (f.name, c["callee"], f.src(c["c"][1])[:60], sorted(linevars)))
+    chk.floor(rid, n, 4, "scan_meta_line / scan_meta_key call sites")
